@@ -6,6 +6,7 @@ import Mitx.Driver.StringG
 import Mitx.Driver.CallState
 import Mitx.Driver.Depend
 import Mitx.Driver.Tol
+import Mitx.Driver.SumG
 open Lean
 
 def dispatch (op : String) (j : Json) : Except String Json :=
@@ -23,6 +24,9 @@ def dispatch (op : String) (j : Json) : Except String Json :=
   | "apply_attempt" => Drv.applyAtt j
   | "depend" => Drv.depend j
   | "within_tol" => Drv.withinTolOp j
+  | "sum" => Drv.sumOp j
+  | "sum_positions" => Drv.sumPositions j
+  | "sum_precheck" => Drv.sumPrecheck j
   | "formula_grade" => Drv.formulaGradeOp j
   | "varlist" => Drv.varList j
   | _ => .error s!"unknown op {op}"
